@@ -196,3 +196,18 @@ Theorem C04_translated_publish_refines_step_full : forall c m v s e,
               Some (Check.GoLitePublish.KCursor (GoLitePublishRefine.cursor_of (step c m v s e) v)).
 Proof. exact GoLitePublishRefine.translated_publish_refines_step. Qed.
 Print Assumptions C04_translated_publish_refines_step_full.
+
+(* REFINEMENT FROM TRANSLATED CODE, start-up.  [boot] — the recovery step after every crash of the histories above — is
+   what getInitialState (block/manager.go, the start-up path of NewManager) does: the Go function itself, translated
+   from /repo's source on every run and evaluated by Model/GoLite.v against scripted collaborators
+   (Check/GoLiteBoot.v: [go_getInitialState], for ALL worlds).  For EVERY configuration, durable image and answer of
+   InitChain (cache files intact) the translated code fails exactly when the model's outcome is a boot failure, and
+   saves a block — the genesis block, once — exactly when the model's first write is that block; when a state is
+   stored it is adopted as it is: nothing is executed, nothing is written, no block above it is looked for. *)
+From Verif Require Proofs.GoLiteBootRefine Check.GoLiteBoot.
+Theorem C04_translated_boot_refines_model_full : forall (c : cfg) (m : img) (ic : option root),
+  exists o, GoLiteBoot.run_boot (GoLiteBootRefine.bworld_of c m ic) = Some o /\
+            GoLiteBootRefine.failed o = GoLiteBootRefine.model_failed (boot c m true ic) /\
+            GoLiteBootRefine.saved_heights o = GoLiteBootRefine.model_block_heights (boot c m true ic).
+Proof. exact GoLiteBootRefine.translated_boot_refines_model. Qed.
+Print Assumptions C04_translated_boot_refines_model_full.
